@@ -772,3 +772,269 @@ theorem firstMatch_lt (fuel : Nat) : ∀ (ps : List Pattern) (i : Nat) (act : Ac
 end
 
 end Einx.OptDag
+
+namespace Einx.OptDag
+
+/-! ### The traversal -/
+
+theorem mapToks_nf (g : Tok → St → R (List Tok × St)) : ∀ (toks : List Tok) (st : St), (∀ t ∈ toks, ∀ st', NF (g t st')) → NF (mapToks g toks st)
+  | [], st, _ => by unfold mapToks; exact NF_pure _
+  | t :: ts, st, h => by
+    unfold mapToks
+    refine NF_bind _ _ (h t (by simp) st) ?_
+    intro r _
+    refine NF_bind _ _ (mapToks_nf g ts _ (fun t' ht' => h t' (by simp [ht']))) ?_
+    intro r' _
+    exact NF_pure _
+
+theorem mapOperands_nf (h : List Tok → St → R (List Tok × St)) : ∀ (vs : List (List Tok)) (st : St), (∀ v ∈ vs, ∀ st', NF (h v st')) →
+    NF (mapOperands h vs st)
+  | [], st, _ => by unfold mapOperands; exact NF_pure _
+  | v :: vs, st, hh => by
+    unfold mapOperands
+    refine NF_bind _ _ (hh v (by simp) st) ?_
+    intro r _
+    refine NF_bind _ _ (mapOperands_nf h vs _ (fun v' hv' => hh v' (by simp [hv']))) ?_
+    intro r' _
+    exact NF_pure _
+
+theorem mapKwargs_nf (h : List Tok → St → R (List Tok × St)) : ∀ (kws : List (String × List Tok)) (st : St),
+    (∀ v ∈ kws.map (·.2), ∀ st', NF (h v st')) → NF (mapKwargs h kws st)
+  | [], st, _ => by unfold mapKwargs; exact NF_pure _
+  | (k, v) :: vs, st, hh => by
+    unfold mapKwargs
+    refine NF_bind _ _ (hh v (by simp) st) ?_
+    intro r _
+    refine NF_bind _ _ (mapKwargs_nf h vs _ (fun v' hv' => hh v' (by simp at hv' ⊢; exact Or.inr hv'))) ?_
+    intro r' _
+    exact NF_pure _
+
+theorem outTypes_nf (S : Store) (st : St) (a a' : App) (base : Nat) : NF (outTypes S st a a' base) := by
+  unfold outTypes
+  split
+  · split
+    · split
+      · exact NF_pure _
+      · exact NF_unsupported _
+    · exact NF_py _
+  · split
+    · split
+      · exact NF_py _
+      · refine NF_bind _ _ (NF_mapM _ _ ?_) (fun _ _ => NF_pure _)
+        intro j _
+        split
+        · exact NF_pure _
+        · exact NF_unsupported _
+    · exact NF_unsupported _
+  · refine NF_bind _ _ (NF_mapM _ _ ?_) (fun _ _ => NF_pure _)
+    intro k _
+    split
+    · exact NF_pure _
+    · exact NF_unsupported _
+
+theorem rebuild_nf (S : Store) (h : List Tok → St → R (List Tok × St)) (a : App) (base : Nat) (st : St)
+    (hh : ∀ v ∈ a.operands, ∀ st', NF (h v st')) : NF (rebuild S h a base st) := by
+  unfold rebuild
+  refine NF_bind _ _ (mapOperands_nf h _ _ (fun v hv => hh v (by simp [App.operands, hv]))) ?_
+  intro r1 _
+  refine NF_bind _ _ (mapOperands_nf h _ _ (fun v hv => hh v (by simp [App.operands, hv]))) ?_
+  intro r2 _
+  refine NF_bind _ _ (mapKwargs_nf h _ _ (fun v hv => hh v (by simp only [App.operands, List.mem_append]; exact Or.inl (Or.inr hv)))) ?_
+  intro r3 _
+  refine NF_bind _ _ (mapOperands_nf h _ _ (fun v hv => hh v (by simp [App.operands, hv]))) ?_
+  intro r4 _
+  refine NF_bind _ _ (outTypes_nf S _ _ _ _) ?_
+  intro r5 _
+  dsimp only
+  split
+  · exact NF_unsupported _
+  · split
+    · exact NF_unsupported _
+    · exact NF_pure _
+
+theorem newInputs_nf (S : Store) : ∀ (is : List Nat) (st : St), NF (newInputs S is st)
+  | [], st => by unfold newInputs; exact NF_pure _
+  | i :: is, st => by
+    unfold newInputs
+    split
+    · exact NF_bind _ _ (newInputs_nf S is _) (fun _ _ => NF_pure _)
+    · exact NF_unsupported _
+
+/-- Enough fuel for a leaf: two more than the tracer's index. -/
+def tokOK (f : Nat) : Tok → Prop
+  | .ref i => i + 1 < f
+  | .gref _ => False
+  | _ => 0 < f
+
+theorem tokOK_of_lt {n f : Nat} (hf : n < f) (v : List Tok) (hv : toksLt n v = true) : ∀ t ∈ v, tokOK f t := by
+  intro t ht
+  have := toksLt_mem hv t ht
+  cases t with
+  | ref j => have := toksLt_ref this; simp only [tokOK]; omega
+  | gref k => simp [toksLt] at this
+  | atom a => simp only [tokOK]; omega
+  | open_ c k => simp only [tokOK]; omega
+
+/-- **The recursion depth is bounded by the tracer index**: `_optimize` on a leaf never runs out of fuel when the fuel exceeds
+the leaf's index by two. -/
+theorem optTok_nf (pats : List Pattern) (S : Store) (hT : S.topo = true) : ∀ (f : Nat) (t : Tok) (st : St), tokOK f t → NF (optTok pats S f t st)
+  | 0, t, st, h => by cases t <;> simp [tokOK] at h
+  | f + 1, t, st, h => by
+    have ih := optTok_nf pats S hT f
+    have ihV : ∀ (n : Nat), n < f → ∀ (v : List Tok), toksLt n v = true → ∀ st', NF (mapToks (optTok pats S f) v st') := by
+      intro n hn v hv st'
+      exact mapToks_nf _ v st' (fun t ht st'' => ih t st'' (tokOK_of_lt hn v hv t ht))
+    cases t with
+    | gref k => simp [tokOK] at h
+    | atom a =>
+      simp only [optTok]
+      split
+      · exact NF_py _
+      · exact NF_pure _
+    | open_ c n => simp only [optTok]; exact NF_pure _
+    | ref i =>
+      simp only [tokOK] at h
+      have hi : i < f := by omega
+      simp only [optTok]
+      split
+      · exact NF_pure _
+      · refine NF_bind _ _ (firstMatch_nf S hT pats _) ?_
+        intro m hm
+        split
+        · rename_i v
+          have hlt : toksLt i v = true := firstMatch_lt S hT _ pats i _ hm
+          exact NF_bind _ _ (ihV i hi v hlt _) (fun _ _ => NF_pure _)
+        · rename_i fn x lit
+          obtain ⟨h1, h2, _⟩ := firstMatch_lt S hT _ pats i _ hm
+          refine NF_bind _ _ (ihV i hi fn h1 _) ?_
+          intro r1 _
+          refine NF_bind _ _ (ihV i hi x h2 _) ?_
+          intro r2 _
+          split
+          · exact NF_unsupported _
+          · exact NF_pure _
+        · split
+          · exact NF_unsupported _
+          · exact NF_pure _
+          · rename_i ty a hn
+            refine NF_bind _ _ (rebuild_nf S _ a i st ?_) ?_
+            · intro v hv st'
+              exact ihV i hi v (operand_lt (topo_app S hT i ty a hn) v hv) st'
+            · intro st1 _
+              split
+              · exact NF_pure _
+              · exact NF_py _
+          · rename_i ty src k hn
+            have hs := topo_proj S hT i ty src k hn
+            split
+            · rename_i ty2 a hn2
+              refine NF_bind _ _ (rebuild_nf S _ a src st ?_) ?_
+              · intro v hv st'
+                exact ihV src (by omega) v (operand_lt (topo_app S hT src ty2 a hn2) v hv) st'
+              · intro st1 _
+                split
+                · exact NF_pure _
+                · exact NF_py _
+            · exact NF_unsupported _
+
+/-- The program is a graph over a topologically ordered store without nested graphs (decidable; computed by the driver). -/
+def Prog.topoOK (p : Prog) : Bool :=
+  p.store.topo &&
+    (match p.top with
+     | [.gref k] =>
+       match p.store.graphs[k]? with
+       | some g => toksLt p.store.nodes.length g.output
+       | none => false
+     | _ => false)
+
+/-- `InlineGraph` on the top-level graph forwards the function of a call below the end of the store. -/
+theorem decideInline_lt (S : Store) (hT : S.topo = true) (fuel k : Nat) (g : GraphV) (act : Action) (hg : S.graphs[k]? = some g)
+    (hout : toksLt S.nodes.length g.output = true) (h : decideInline S fuel k = .ok (some act)) : act.lt S.nodes.length := by
+  unfold decideInline at h
+  rw [hg] at h
+  simp only at h
+  obtain ⟨output, ho, h⟩ := bind_ok.1 h
+  have hlt := skipId_lt S hT _ _ _ ho hout
+  split at h
+  · rename_i j
+    have hj := toksLt_ref hlt
+    split at h
+    · rename_i a base kk ha
+      have ha' := operandsLt_mono (Nat.le_of_lt hj) _ (appOf_lt S hT j a base kk ha).1
+      split at h
+      · obtain ⟨fins, _, h⟩ := bind_ok.1 h
+        split at h
+        · cases h
+        · split at h
+          · rename_i f hf
+            obtain ⟨dep, _, h⟩ := bind_ok.1 h
+            split at h
+            · cases h
+            · simp only [pure, Except.pure, Except.ok.injEq, Option.some.injEq] at h
+              subst h
+              exact operand_lt ha' f (pre_mem a _ (by simp [hf]))
+          · cases h
+      · cases h
+    · cases h
+  · cases h
+
+theorem firstMatch_gref_lt (S : Store) (hT : S.topo = true) (fuel k : Nat) (g : GraphV) (hg : S.graphs[k]? = some g)
+    (hout : toksLt S.nodes.length g.output = true) : ∀ (ps : List Pattern) (act : Action),
+    firstMatch S fuel ps (.gref k) = .ok (some act) → act.lt S.nodes.length
+  | [], act, h => by simp [firstMatch, pure, Except.pure] at h
+  | p :: ps, act, h => by
+    unfold firstMatch at h
+    obtain ⟨r, hr, h⟩ := bind_ok.1 h
+    split at h
+    · simp only [pure, Except.pure, Except.ok.injEq, Option.some.injEq] at h
+      subst h
+      cases p with
+      | inlineGraph => exact decideInline_lt S hT fuel k g _ hg hout (by simpa [Pattern.decide] using hr)
+      | skipReshape pat => simp [Pattern.decide, pure, Except.pure] at hr
+      | skipTranspose pat => simp [Pattern.decide, pure, Except.pure] at hr
+      | skipBroadcastTo pat => simp [Pattern.decide, pure, Except.pure] at hr
+      | skipConcatenate pat => simp [Pattern.decide, pure, Except.pure] at hr
+      | skipCast => simp [Pattern.decide, pure, Except.pure] at hr
+    · exact firstMatch_gref_lt S hT fuel k g hg hout ps act h
+
+/-- **One pass never runs out of fuel**: the depth `Prog.fuel` the model gives a pass is sufficient for every graph over a
+topologically ordered store. -/
+theorem pass_nf (pats : List Pattern) (p : Prog) (h : p.topoOK = true) : NF (pass pats p.fuel p) := by
+  unfold Prog.topoOK at h
+  simp only [Bool.and_eq_true] at h
+  obtain ⟨hT, h⟩ := h
+  split at h
+  · rename_i k htop
+    split at h
+    · rename_i g hg
+      unfold pass
+      refine NF_bind _ _ ?_ (fun _ _ => NF_pure _)
+      rw [htop]
+      unfold mapToks
+      refine NF_bind _ _ ?_ ?_
+      · -- the top-level graph object
+        have hf : p.fuel = (2 * (p.store.nodes.length + p.store.graphs.length) + 1) + 1 := rfl
+        rw [hf]
+        have hn : p.store.nodes.length < 2 * (p.store.nodes.length + p.store.graphs.length) + 1 := by omega
+        have ihV : ∀ (v : List Tok), toksLt p.store.nodes.length v = true → ∀ st', NF (mapToks (optTok pats p.store (2 * (p.store.nodes.length + p.store.graphs.length) + 1)) v st') := by
+          intro v hv st'
+          exact mapToks_nf _ v st' (fun t ht st'' => optTok_nf pats p.store hT _ t st'' (tokOK_of_lt hn v hv t ht))
+        simp only [optTok, List.lookup_nil]
+        refine NF_bind _ _ (firstMatch_nf p.store hT pats _) ?_
+        intro m hm
+        split
+        · rename_i v
+          have := firstMatch_gref_lt p.store hT _ k g hg h pats _ hm
+          exact NF_bind _ _ (ihV v this _) (fun _ _ => NF_pure _)
+        · exact NF_unsupported _
+        · simp only [hg]
+          refine NF_bind _ _ (newInputs_nf _ _ _) ?_
+          intro r _
+          exact NF_bind _ _ (ihV g.output h _) (fun _ _ => NF_pure _)
+      · intro r _
+        unfold mapToks
+        exact NF_bind _ _ (NF_pure _) (fun _ _ => NF_pure _)
+    · cases h
+  · cases h
+
+end Einx.OptDag
